@@ -187,8 +187,24 @@ CHECKS["C05"] = dict(
     parts=[
         dict(test="TestC05Messages", quick=120, thorough=8000, per_shard=12),
         dict(test="TestC05Restart", quick=192, thorough=9600, per_shard=24),
+        dict(test="TestC16Route", quick=120, thorough=6000, per_shard=15),  # graphsync-path role checks (extension cross-checks)
     ],
     floors=dict(any={"TestC05Messages.messages": 1500, "TestC05Messages.legit_effects": 200, "TestC05Messages.from.stranger": 200, "TestC05Restart.genuine_restarts": 10,
                      "TestC05Restart.restart_mutations": 100, "TestC05Restart.restart_existing": 40}),
-    assumptions=["graphsync-path role checks (extension cross-checks) are exercised by the transport engine (C16 parts), not here"],
+    assumptions=["the graphsync arrival path is exercised through the real transport over a graphsync double (part TestC16Route: role-confused extension messages)"],
+)
+
+CHECKS["C16"] = dict(
+    level="exploration",
+    rule=("real graphsync transport over a thread-safe graphsync double and a recording EventsHandler. 2-8 channels (all four roles, three peers, transfer ids colliding "
+          "across peers and roles, optional per-channel store), 1-3 graphsync requests per channel (restarts), then 20-79 PRNG callbacks: incoming/outgoing/sent blocks "
+          "(1 in 4 with BlockSizeOnWire()==0), processing listeners, completed responses with every status, requestor-cancelled, network send/receive errors, response and "
+          "update extensions in the right and in the confused role, callbacks naming unknown request ids or requests without a data-transfer extension, pause/resume/close, "
+          "cleanup followed by late callbacks. The harness owns the map request id -> channel; after every callback the new handler calls must be exactly the expected "
+          "(operation, channel) multiset (nothing for unknown/foreign/cleaned-up), control calls must name the channel's current request, hook snapshot shows no route or "
+          "tracking after cleanup, persistence options exist exactly for live channels with a store. distinct = per-channel (requester, #requests, cleaned, store) shape."),
+    parts=[dict(test="TestC16Route", quick=200, thorough=12000, per_shard=25)],
+    floors=dict(any={"TestC16Route.callbacks": 4000, "TestC16Route.cleanups": 60, "TestC16Route.restarts": 200, "TestC16Route.role_confused": 150,
+                     "TestC16Route.offwire_blocks": 80, "TestC16Route.foreign_requests": 150, "TestC16Route.completions": 100}),
+    assumptions=["the graphsync double runs the outgoing-request hook before Request returns, as go-graphsync v0.18 does"],
 )
